@@ -26,9 +26,11 @@ LEVEL = ("(1) Redfield (static) and Lindblad tensors built twice from identical 
          "equals the static tensor at the last; (4) uncoupled sites with high-temperature or general overdamped "
          "Brownian baths: TD-Redfield propagation of every coherence equals exp(-i(w-W)t - g_a(t) - conj g_b(t)) within "
          "the first-order endpoint-rule error dt*max|dg/dt| plus the Taylor truncation bound.")
-NOTE = ("Clause 4 tolerance is an explicit error model (right-endpoint rule of the time-local propagation), not a "
-        "calibrated constant: 1.0*|rho_ab(0)|*dt_eff*max|g_a' + conj g_b'| + class-2 bound + 2e-4 (spline quadrature of "
-        "the tensor). dim <= 4; <= 200 bath time points.")
+NOTE = ("Clause 4 tolerance is an explicit error model: the time-local propagation sums g'(t_n) dt instead of "
+        "integrating g', which is bounded by dt times the total variation of g' (bounded analytically, exponential term "
+        "by term); allowed = 1.25*|rho_ab(0)|*dt_eff*TV(g_a' + conj g_b') + class-2 bound + 2e-4, the factor 1.25 "
+        "covering the tensor's own spline quadrature of unresolved Matsubara terms (worst observed 1.053 in two thorough "
+        "runs; the first version, dt*max|g'|, raised two false alarms there). dim <= 4; <= 200 bath time points.")
 RULE = ("kind forms: gens.system_spec (coupled) or Lindblad operators + complex operator A + rho0 + other-basis operator "
         "+ (td, output step multiple m in 1..4, Nref dividing m); kind limit: coupled system; kind dephasing: 1..3 "
         "uncoupled sites, bath type, m, Nref. Non-trivial: non-Hermitian A and N >= 2 (forms); lambda >= 10 cm^-1 so "
@@ -301,12 +303,14 @@ def _check_deph(case, ctx):
     Hr = numpy.diag(H) - Om
     tf = numpy.linspace(t[0], t[-1], 20 * (len(t) - 1) + 1)      # fine grid for max |g'|
     g, gp = [numpy.zeros(len(t), dtype=complex)], [numpy.zeros(len(tf), dtype=complex)]
+    tvb = [0.0]           # analytic bound of the total variation of g' per bath: every exponential term is monotone
     for b in spec["bath"]:
         lam = b["reorg"] * orc.CM2INT
         ex = (orc.ht_exponentials(lam, b["cortime"], T) if ht
               else orc.ob_exponentials(lam, b["cortime"], T, int(b.get("matsubara", 20))))
         g.append(orc.lineshape_g(t, ex))
         gp.append(sum((c / nu) * (1.0 - numpy.exp(-nu * tf)) for c, nu in ex))
+        tvb.append(float(sum(abs((c / nu).real) + abs((c / nu).imag) for c, nu in ex)))
     dt_eff = dt * m / nref
     # Taylor truncation (order 4) of the free rotation + dephasing over one effective step
     x = dt_eff * (float(numpy.max(numpy.abs(Hr))) * 2 + max(float(numpy.max(numpy.abs(q))) for q in gp) * 2)
@@ -321,9 +325,11 @@ def _check_deph(case, ctx):
             # the time-local propagation sums g'(t_n) dt instead of integrating g': the difference is bounded by
             # dt times the total variation of g' (equal to max |g'| where g' is monotone; Matsubara terms of either
             # sign make it larger - a thorough run found 1.01 x the max-based bound at T = 150 K with 42 terms)
+            # (the variation is bounded analytically, term by term: fast Matsubara terms are not resolved by any grid)
             gsum = gp[a] + numpy.conj(gp[c])
-            tv = float(numpy.sum(numpy.abs(numpy.diff(gsum.real))) + numpy.sum(numpy.abs(numpy.diff(gsum.imag))))
-            model = (abs(rho0[a, c]) * dt_eff * max(tv, float(numpy.max(numpy.abs(gsum))))
+            # factor 1.25: the tensor's own g'(t_n) come from a spline integration of C(t) that does not resolve the
+            # fast Matsubara terms either (two thorough runs found 1.01 and 1.053 times the variation bound)
+            model = (1.25 * abs(rho0[a, c]) * dt_eff * max(tvb[a] + tvb[c], float(numpy.max(numpy.abs(gsum))))
                      + 3 * trunc + 2e-4 * abs(rho0[a, c]) + 1e-9)
             ctx.bound("pure-dephasing-solution", float(numpy.max(numpy.abs(data[:, a, c] - ref))), model, where=tag,
                       m=m, nref=nref, a=a, c=c)
